@@ -170,6 +170,8 @@ def run_check(prop, tier="quick", only=None, jobs=None, canaries=True, verbose=F
     _G["R"] = R
     _G["timeout_ms"] = 20000 if tier == "quick" else 60000
     _G["canaries"] = canaries
+    from . import solve as _solve
+    _solve.CROSS["on"] = (tier == "thorough")     # inherited by the forked workers
     jobs = jobs or min(16, os.cpu_count() or 4)
     results = []
     if jobs > 1 and len(units) > 1:
@@ -222,6 +224,8 @@ def summarise(prop, tier, R, results, bounded, wall, write=True, verbose=False):
     covers = 0
     fallback_runs = []
     known_shape = []
+    cross = {"unsat": 0, "unknown": 0, "sat": 0}
+    cross_disagree = []
     for r in results:
         if r["status"] == "checker-error":
             errors.append((r["label"], r["error"]))
@@ -250,6 +254,10 @@ def summarise(prop, tier, R, results, bounded, wall, write=True, verbose=False):
         notes |= set(r.get("notes") or [])
         for oid, rec in sorted(r["obligations"].items()):
             solver_s += rec["seconds"]
+            for k_, v_ in (rec.get("cross") or {}).items():
+                cross[k_] += v_
+                if k_ == "sat" and v_:
+                    cross_disagree.append(oid)
             if rec["result"] == "unsat":
                 n_obl += 1
                 n_dis += 1
@@ -388,6 +396,8 @@ def summarise(prop, tier, R, results, bounded, wall, write=True, verbose=False):
             viol_docs.append({"shape": b["name"], "replay": rel, "reproduced": True})
     for lab, err in undecided:
         out_lines.append("UNDECIDED unit=%s %s" % (lab, (err or "").splitlines()[0]))
+    for oid in cross_disagree:
+        errors.append((oid, "z3 says unsat but cvc5 says sat on the same VC: solver disagreement, nothing is believed"))
     for lab, err in errors:
         out_lines.append("CHECKER-ERROR unit=%s %s" % (lab, err))
     if surviving:
@@ -417,6 +427,9 @@ def summarise(prop, tier, R, results, bounded, wall, write=True, verbose=False):
             "inlined_callees": inlined, "callee_contracts_used": used_contracts,
             "per_vc": per_vc if len(per_vc) <= 400 else per_vc[:400] + [["... %d more" % (len(per_vc) - 400)]],
             "solver_seconds_total": round(solver_s, 2),
+            "cvc5_cross_check": ({"vcs_z3_unsat_also_given_to_cvc5": sum(cross.values()), "cvc5_unsat": cross["unsat"],
+                                  "cvc5_unknown_or_timeout": cross["unknown"], "cvc5_sat_DISAGREEMENT": cross_disagree}
+                                 if tier == "thorough" else "thorough tier only"),
             "canaries": {"killed": can_killed, "total": can_total, "surviving": surviving},
             "covers_sat": covers,
             "bounded": [{k: v for k, v in b.items() if k != "failures"} | {"failures": len(b.get("failures", []))}
@@ -448,8 +461,11 @@ def summarise(prop, tier, R, results, bounded, wall, write=True, verbose=False):
             "evaluations": max(ev_cases, 1), "distinct_nontrivial": max(ev_distinct, 2),
             "rule": "; ".join("%s: %s" % (b["name"], b.get("rule") or b.get("bound")) for b in bounded),
             "exhaustive": False,
-            "explanation": "no deductive obligation exists for this property yet; decided by the bounded native "
-                           "stand-ins only (class B, not proved)"})
+            "explanation": ("no deductive obligation exists for this property yet; decided by the bounded native "
+                            "stand-ins only (class B, not proved)") if n_obl == 0 else
+                           ("%d obligations on supporting functions are discharged (listed under functions_under_contract), "
+                            "but the decisive part of this property is the bounded native stand-ins (class B, not proved)"
+                            % n_dis)})
         evidence["coverage"]["samples"] = [{"bounded_check": b["name"], "bound": b["bound"], "cases": b.get("cases")} for b in bounded]
     shapes = [b for b in bounded if b.get("shape_check")]
     if shapes and not results:
